@@ -179,3 +179,43 @@ func HarnessC05Thorough() { c05scenario(2, 2, 2) }
 
 // HarnessC05Three: 3+1 reports, one read.
 func HarnessC05Three() { c05scenario(3, 1, 1) }
+
+// HarnessC05AfterDone: two watching sources; one of them finishes (Done); the other one's later
+// reports are still installed and the view equals a fresh stack.
+func HarnessC05AfterDone() {
+	verifyLog = nil
+	def := hcfg{A: zzverif.Int64("defA"), B: zzverif.Int64("defB")}
+	init0 := hval{setA: true, a: zzverif.Int64("a_init")}
+	init1 := hval{setB: true, b: zzverif.Int64("b_init")}
+	srcs := []*hwsrc{{hsrc{name: "s0", init: init0}}, {hsrc{name: "s1", init: init1}}}
+	ctx, cancel := context.WithCancel(context.Background())
+	defer cancel()
+	defc := def
+	d, err := Config(ctx, &defc, srcs[0], srcs[1])
+	if err != nil {
+		zzverif.Fail("C04 Config failed on a valid initial stack")
+		return
+	}
+	first := zzverif.Choose("doneFirst", 2)
+	srcs[first].wa.Done(ctx)
+	zzverif.Quiesce()
+	other := srcs[1-first]
+	nv := zzverif.Int64("later")
+	v := hval{setA: true, a: nv}
+	if first == 0 {
+		v = hval{setB: true, b: nv}
+	}
+	_, ser0 := d.ViewVersion()
+	e := other.wa.BlockingReportNewValue(ctx, mkValue(other.t, v))
+	zzverif.Assert(e == nil, "C05 a report from a source that is still watching failed after another source finished")
+	got, ser := d.ViewVersion()
+	wantA, wantB := init0.a, init1.b
+	if first == 0 {
+		wantB = nv
+	} else {
+		wantA = nv
+	}
+	zzverif.Assert(zzverif.And(got.A == wantA, got.B == wantB), "C05 the view differs from a fresh stack of the latest reported values (after one watcher finished)")
+	zzverif.Assert(ser.s == ser0.s+1, "C05 the serial does not count the installed versions")
+	zzverif.Reached("c05-done-end")
+}
